@@ -4,6 +4,7 @@ from _cfg import *
 def check_case(rep, case, name):
     if case.get('kind') == 'nested': nested_cases(rep); return
     if case.get('kind') == 'section-placeholders': section_placeholder_cases(rep); return
+    if case.get('kind') == 'table-form': table_form_cases(rep); return
     rng = random.Random(case['seed'])
     kind = case['kind']
     if kind == 'pair':
@@ -72,12 +73,36 @@ def section_placeholder_cases(rep):
         if got != want: rep.dev('section-placeholders-' + nm, case, 'templated file tabulates differently', 'same bytes')
         else: rep.ok()
 
+def table_form_cases(rep):
+    """[Table-Form:NAME] sections: place-holders inside the table data, and variables named like the keys such a section may define
+    (x, y, xy, interpolation) that the section does not define itself"""
+    head = '[Tabulation]\ntarget : LAMMPS\nnr : 12\ncutoff : 5.5\n\n'
+    xy = '[Table-Form:tf]\ninterpolation : cubic_spline\nxy : 0.0 4.0 1.0 2.5 2.0 1.25 3.0 0.5 4.0 0.125 6.0 0.0\n\n'
+    x_y = '[Table-Form:tf]\nx : 0.0 1.0 2.0 3.0 4.0 6.0\ny : 4.0 2.5 1.25 0.5 0.125 0.0\n\n'
+    pair = '[Pair]\nO-O : sum(tf, as.buck 1388.77 0.3623 175.0)\nU-O : tf\n'
+    cases = []
+    for form, sec in (('xy', xy), ('x_y', x_y)):
+        plain = head + sec + pair
+        for vn in ('y', 'x', 'xy', 'interpolation', 'tf'):
+            cases.append(('%s-unused-variable-%s' % (form, vn), plain, '[Variables]\n%s : 1.5\n\n' % vn + plain))
+            cases.append(('%s-variable-%s-used-in-pair' % (form, vn), plain, '[Variables]\n%s : 0.3623\n\n' % vn + plain.replace('1388.77 0.3623', '1388.77 ${%s}' % vn)))
+        cases.append(('%s-placeholder-in-table-data' % form, plain, '[Variables]\nhalf : 0.5\nquarter : 1.25\n\n' + plain.replace(' 0.5 ', ' ${half} ').replace(' 1.25 ', ' ${quarter} ')))
+    for nm, plain, templ in cases:
+        rep.case('table-form', nm)
+        case = dict(kind='table-form', name=nm)
+        try: want = tabulate_text(plain)
+        except Exception as e: rep.dev('table-form-' + nm, case, 'plain file rejected %r' % (e,), 'accepted'); return
+        try: got = tabulate_text(templ)
+        except Exception as e: rep.dev('table-form-' + nm, case, 'templated file: %s: %s' % (type(e).__name__, str(e)[:120]), 'same output as the hand-substituted file'); continue
+        if got != want: rep.dev('table-form-' + nm, case, 'templated file tabulates differently', 'same bytes')
+        else: rep.ok()
+
 if __name__ == '__main__':
     pl = payload(); rep = Report('C15')
     if pl.get('mode') == 'replay': rep.case('replay', pl['input']); check_case(rep, pl['input'], 'replay')
     else:
         rng = random.Random(pl.get('seed', 0))
-        nested_cases(rep); section_placeholder_cases(rep)
+        nested_cases(rep); section_placeholder_cases(rep); table_form_cases(rep)
         for i in range(pl.get('n', 40)):
             c = gen_case(rng); rep.case(c['kind'], c); check_case(rep, c, 'seeded-%d' % i)
     rep.finish()
